@@ -1131,6 +1131,10 @@ class ServiceInstance:
         self._task = None
         self._can_answer_offers = False
 
+        # offers of this instance that still wait in a send collector (e.g. a FindService
+        # answer queued for a unicast peer) must leave before the StopOffer does
+        self.announcer.flush_queued_offers(self.service)
+
         # cyclic tasks send stop when they are cancelled
         if not self.timings.CYCLIC_OFFER_DELAY:
             self._send_offer(stop=True)
@@ -1277,6 +1281,12 @@ class SendCollector(typing.Generic[KT]):
     def cancel(self) -> None:
         self._handle.cancel()
 
+    def flush(self) -> None:
+        """send the collected data now instead of waiting for the timeout"""
+        if not self.done:
+            self._handle.cancel()
+            self._handle_timeout()
+
 
 class ServiceAnnouncer:
     # TODO doc
@@ -1307,6 +1317,22 @@ class ServiceAnnouncer:
         # FIXME stops and starts for the same instance in the same queue make no sense
         # and should probably be cleaned out
         queue.append(entry)
+
+    def flush_queued_offers(self, service: someip.config.Service) -> None:
+        """
+        immediately sends all open send queues that hold a (non-stop) offer of `service`
+        """
+        for queue in list(self.send_queues.values()):
+            if queue.done:
+                continue
+            if any(
+                entry.sd_type == someip.header.SOMEIPSDEntryType.OfferService
+                and entry.ttl != 0
+                and entry.service_id == service.service_id
+                and entry.instance_id == service.instance_id
+                for entry in queue.data
+            ):
+                queue.flush()
 
     def announce_service(self, instance: ServiceInstance) -> None:
         if self.started:
